@@ -7,12 +7,19 @@ search.py:50-89).  Ghost fields (prefix g_) exist only in specifications.
 
 
 def declare(reg):
+    reg.enum("asimap/client.py", "ClientState")
     reg.record("SearchArgs", {
         "msg_set": "list[MsgElt]", "keyword": "str", "n": "int", "string": "str", "header": "str",
     })
+    reg.classdef("PWUser", {"username": "str", "pw_hash": "str", "maildir": "opaque:Path"}, path="asimap/auth.py")
+    reg.classdef(
+        "PreAuthenticated",
+        {"state": "enum:ClientState", "user": "opt[ref:PWUser]", "client": "ref:ClientProxy", "name": "str"},
+        path="asimap/client.py",
+    )
     reg.classdef("IMAPUserServer", {"uid_vv": "int", "maildir": "str", "mailbox": "ref:MH"}, path="asimap/user_server.py")
     # g_out: ghost list of everything pushed to this client, in order
-    reg.classdef("ClientProxy", {"name": "str", "g_out": "list[str]"})
+    reg.classdef("ClientProxy", {"name": "str", "g_out": "list[str]", "rem_addr": "str"})
     reg.classdef(
         "POP3CommandHandler",
         {
@@ -58,6 +65,9 @@ def declare(reg):
             "silent": "bool",
             "tag": "str",
             "g_ready": "bool",
+            "timeout_cm": "opt[opaque:Timeout]",
+            "user_name": "str",
+            "password": "str",
         },
         path="asimap/parse.py",
     )
